@@ -1,4 +1,5 @@
 import random
+from decimal import Decimal
 from typing import Any, Optional, cast
 
 from flamapy.core.models import VariabilityModel
@@ -89,9 +90,9 @@ def get_random_value_from_ranges(ranges: list[Range]) -> Any:
     """
     random_range = random.choice(ranges)
     if isinstance(random_range.min_value, float) or isinstance(random_range.max_value, float):
-        min_digits = str(random_range.min_value)[::-1].find('.')
-        max_digits = str(random_range.max_value)[::-1].find('.')
-        digits = max(min_digits, max_digits)
+        min_digits = -Decimal(str(random_range.min_value)).as_tuple().exponent
+        max_digits = -Decimal(str(random_range.max_value)).as_tuple().exponent
+        digits = max(min_digits, max_digits, 0)
         value = round(random.uniform(random_range.min_value, random_range.max_value), digits)
     elif isinstance(random_range.min_value, int) and isinstance(random_range.max_value, int):
         value = random.randint(random_range.min_value, random_range.max_value)
